@@ -333,3 +333,13 @@ pub fn property() -> Property {
         ],
     }
 }
+
+pub fn oracle_words_pub(ws: &[i64], obs: &mut Obs) -> Result<(), Violation> {
+    oracle_words(&Words(ws.to_vec()), obs)
+}
+pub fn oracle_pred_bytes_pub(b: &[u8], obs: &mut Obs) -> Result<(), Violation> {
+    oracle_pred_bytes(&Bytes(b.to_vec()), obs)
+}
+pub fn oracle_hostile_pub(c: &GraphCase, obs: &mut Obs) -> Result<(), Violation> {
+    oracle_hostile(c, obs)
+}
